@@ -51,7 +51,7 @@ theorem idsOf_of_is {M x : THeap W Wt} (h : LexIs M x) (toks : List W) : idsOf M
   intro w _
   rw [h.wids]
 
-theorem merged_lex (ctx : TCtx c H T a b Ta Tb Da Db) (ms : MergedSpec H a b M) :
+theorem tm_lex (ctx : TCtx c H T a b Ta Tb Da Db) (ms : MergedSpec H a b M) :
     (LexIs M a.heap ∧ b.heap.wids = H.wids) ∨ (LexIs M b.heap ∧ a.heap.wids = H.wids) := by
   have hw := mergeObj_map_spec ms.wids ctx.sa.wids ctx.sb.wids
   have hi := mergeObj_map_spec ms.words ctx.sa.words ctx.sb.words
@@ -94,7 +94,7 @@ theorem merged_lex (ctx : TCtx c H T a b Ta Tb Da Db) (ms : MergedSpec H a b M) 
       cases this
 
 /-- docid-keyed maps: the second transaction's entries on its docids, the first one's elsewhere -/
-theorem merged_docmap {β : Type} [DecidableEq β] {old com new r : AMap Int β} {da db : Bool}
+theorem tm_docmap {β : Type} [DecidableEq β] {old com new r : AMap Int β} {da db : Bool}
     (h : mergeObj resolveMap da db old com new = some r) (ha : da = false → com = old) (hb : db = false → new = old)
     (fa : ∀ d, d ∉ Da → AMap.get com d = AMap.get old d) (fb : ∀ d, d ∉ Db → AMap.get new d = AMap.get old d)
     (dis : ∀ d, d ∈ Da → d ∉ Db) (d : Int) :
@@ -109,15 +109,15 @@ theorem merged_docmap {β : Type} [DecidableEq β] {old com new r : AMap Int β}
     rw [fb d e, mergeVal_right] at this
     exact (Option.some.inj this).symm
 
-theorem merged_docwords (ctx : TCtx c H T a b Ta Tb Da Db) (ms : MergedSpec H a b M) (d : Int) :
+theorem tm_docwords (ctx : TCtx c H T a b Ta Tb Da Db) (ms : MergedSpec H a b M) (d : Int) :
     AMap.get M.docwords d = if d ∈ Db then AMap.get b.heap.docwords d else AMap.get a.heap.docwords d :=
-  merged_docmap ms.docwords ctx.sa.docwords ctx.sb.docwords ctx.fa.dw ctx.fb.dw ctx.dis d
+  tm_docmap ms.docwords ctx.sa.docwords ctx.sb.docwords ctx.fa.dw ctx.fb.dw ctx.dis d
 
-theorem merged_docweight (ctx : TCtx c H T a b Ta Tb Da Db) (ms : MergedSpec H a b M) (d : Int) :
+theorem tm_docweight (ctx : TCtx c H T a b Ta Tb Da Db) (ms : MergedSpec H a b M) (d : Int) :
     AMap.get M.docweight d = if d ∈ Db then AMap.get b.heap.docweight d else AMap.get a.heap.docweight d :=
-  merged_docmap ms.docweight ctx.sa.docweight ctx.sb.docweight ctx.fa.dwt ctx.fb.dwt ctx.dis d
+  tm_docmap ms.docweight ctx.sa.docweight ctx.sb.docweight ctx.fa.dwt ctx.fb.dwt ctx.dis d
 
-theorem merged_ni (ctx : TCtx c H T a b Ta Tb Da Db) (ms : MergedSpec H a b M) (d : Int) :
+theorem tm_ni (ctx : TCtx c H T a b Ta Tb Da Db) (ms : MergedSpec H a b M) (d : Int) :
     d ∈ M.ni ↔ if d ∈ Db then d ∈ b.heap.ni else d ∈ a.heap.ni := by
   have := (mergeObj_set_spec ms.ni ctx.sa.ni ctx.sb.ni).1 d
   by_cases e : d ∈ Db
@@ -136,7 +136,7 @@ theorem merged_ni (ctx : TCtx c H T a b Ta Tb Da Db) (ms : MergedSpec H a b M) (
     exact (decide_eq_decide.mp this).symm
 
 /-- `_wordinfo`, key by key: one side left the key alone -/
-theorem merged_wi (ctx : TCtx c H T a b Ta Tb Da Db) (ms : MergedSpec H a b M) (w : Nat) :
+theorem tm_wi (ctx : TCtx c H T a b Ta Tb Da Db) (ms : MergedSpec H a b M) (w : Nat) :
     (AMap.get a.heap.wordinfo w = AMap.get H.wordinfo w ∧ AMap.get M.wordinfo w = AMap.get b.heap.wordinfo w) ∨
     (AMap.get b.heap.wordinfo w = AMap.get H.wordinfo w ∧ AMap.get M.wordinfo w = AMap.get a.heap.wordinfo w) := by
   have := (mergeObj_map_spec ms.wordinfo ctx.sa.wordinfo ctx.sb.wordinfo).1 w
